@@ -1073,6 +1073,161 @@ static void run_cmd_family(const std::string& name, const std::string& desc, con
     R->bound("outline." + name, desc + "; per spine: complete command list (widths 1, 2), lists stopping after k valid instructions (unknown letter / missing last argument) + immediate outline and PATH export, the same + segment(rest, width 2->1); offsets {0, two elements}; all joins and ends" + (base.do_c ? "; PATH records (gds+oas)" : ""), ok, (int64_t)spines.size());
 }
 
+// ----------------------------------------------------------------------- Extended end alphabet for PATH records
+// Start x end extension over {0, half width exactly, 0.35 (positive, != half width), -0.5 (legal: the path is cut
+// short)}: all 16 pairs, constant width 1 or 2, one element or two (+1.5/-1.5), join natural, no bends.  For every
+// pair: the source outline against the centre-line oracle, then write_gds / write_oas, re-read, and the record must
+// carry the same effective extensions (flush = (0,0), half-width = (hw,hw)) and denote the region to_polygons covers.
+static const char* const EXTV_NAME[4] = {"0", "hw", "0.35", "-0.5"};
+static double extv(int k, double hw) { return k == 0 ? 0 : k == 1 ? hw : k == 2 ? 0.35 : -0.5; }
+static void run_ext_group(const std::vector<V>& sp, int wcfg, int ocfg, bool verbose) {
+    const int n = (int)sp.size(), nel = group_nel(ocfg);
+    const double hw = wcfg == 0 ? 0.5 : 1.0;
+    R->count("path_ext_members_enumerated", 16);
+    for (int batch = 0; batch < 2; batch++) {
+        // 8 pairs per batch (the classification masks hold 8 end variants)
+        std::vector<std::pair<int, int>> pairs;
+        for (int q = batch * 8; q < batch * 8 + 8; q++) pairs.push_back({q / 4, q % 4});
+        std::vector<ElemOracle> eo(nel);
+        bool dropped = false;
+        for (int el = 0; el < nel && !dropped; el++) {
+            c07::ElementInput& in = eo[el].in;
+            in.spine = sp;
+            in.hw.assign(n, hw);
+            in.off.assign(n, group_off(ocfg, el));
+            for (auto& pr : pairs) in.ends.push_back(c07::EndVar{false, false, extv(pr.first, hw), extv(pr.second, hw)});
+            eo[el].o = c07::build(in);
+            if (eo[el].o.status != c07::OK) dropped = true;
+        }
+        if (dropped) { R->count("path_ext_members_dropped", 8); continue; }
+        double bx0 = 1e300, by0 = 1e300, bx1 = -1e300, by1 = -1e300;
+        unsigned valid = 0xff;
+        for (auto& e : eo) { bx0 = std::min(bx0, e.o.bx0); by0 = std::min(by0, e.o.by0); bx1 = std::max(bx1, e.o.bx1); by1 = std::max(by1, e.o.by1); valid &= e.o.valid_ends; }
+        Grid grid = make_grid(bx0, by0, bx1, by1, 0.25);
+        for (auto& e : eo) {
+            e.cls.resize(grid.size());
+            for (int j = 0; j < grid.ny; j++) for (int i = 0; i < grid.nx; i++) e.cls[(size_t)j * grid.nx + i] = c07::classify(e.o, grid.at(i, j), G, 8);
+        }
+        auto mjson = [&](int v) {
+            return jobj({{"spine", jpts(sp)}, {"width", jstr(WIDTH_NAME[wcfg])}, {"offsets", jstr(OFF_NAME[ocfg])}, {"join", jstr("natural")}, {"simple_path", jbool(true)},
+                         {"end", jstr(fmt("extended(%s, %s) = (%.3g, %.3g)", EXTV_NAME[pairs[v].first], EXTV_NAME[pairs[v].second], extv(pairs[v].first, hw), extv(pairs[v].second, hw)))}});
+        };
+        auto tags = [&](int v, int el, const char* fmtname, const char* what) {
+            JFields t = {{"format", jstr(fmtname)}, {"ext_pair", jbool(true)}, {"start_ext", jstr(EXTV_NAME[pairs[v].first])}, {"end_ext", jstr(EXTV_NAME[pairs[v].second])}, {"elements", jint(nel)},
+                         {"element", jint(el)}, {"points", jint(n)}, {"what", jstr(what)}};
+            return t;
+        };
+        auto cls_name = [&](const char* what, int v) { return fmt("ext:%s:%s:%s", what, EXTV_NAME[pairs[v].first], EXTV_NAME[pairs[v].second]); };
+        std::string replay = fmt("sub=pathext pts=%s w=%d oc=%d", pts_str(sp).c_str(), wcfg, ocfg);
+        auto build_path = [&](int v) {
+            FlexPath* fp = make_path(sp, wcfg, ocfg, 0, c07::J_NATURAL, 2, true);
+            for (int el = 0; el < nel; el++) fp->elements[el].end_extensions = Vec2{extv(pairs[v].first, hw), extv(pairs[v].second, hw)};
+            return fp;
+        };
+        // ---- source outlines
+        std::vector<uint8_t> keep[8][2];
+        std::vector<int> live;
+        for (int v = 0; v < 8; v++) {
+            if (!(valid >> v & 1)) { R->count("path_ext_members_dropped"); continue; }
+            FlexPath* fp = build_path(v);
+            Array<Polygon*> res = {};
+            ErrorCode ec = fp->to_polygons(false, 0, res);
+            bool ok = ec == ErrorCode::NoError && res.count == (uint64_t)nel;
+            if (!ok) R->violation("outline", cls_name("no-polygon", v), tags(v, 0, "-", "no-polygon"), mjson(v), "to_polygons failed", replay);
+            for (int el = 0; ok && el < nel; el++) {
+                std::vector<V> poly;
+                for (uint64_t k = 0; k < res[el]->point_array.count; k++) poly.push_back(V{res[el]->point_array[k].x, res[el]->point_array[k].y});
+                coverage(poly, grid, keep[v][el]);
+                int bad_mc = 0, bad_mn = 0;
+                V f{0, 0};
+                for (size_t s2 = 0; s2 < grid.size(); s2++) {
+                    const c07::Cls& c = eo[el].cls[s2];
+                    bool mc = c.mc >> v & 1, mn = (c.farE >> v & 1) && (c.farJ >> c07::J_NATURAL & 1);
+                    if (mc && !keep[v][el][s2]) { if (!bad_mc && !bad_mn) f = grid.at((int)(s2 % grid.nx), (int)(s2 / grid.nx)); bad_mc++; }
+                    if (mn && keep[v][el][s2]) { if (!bad_mc && !bad_mn) f = grid.at((int)(s2 % grid.nx), (int)(s2 / grid.nx)); bad_mn++; }
+                }
+                if (verbose) fprintf(stderr, " ext(%s,%s) element %d polygon: %s\n", EXTV_NAME[pairs[v].first], EXTV_NAME[pairs[v].second], el, pts_str(poly).c_str());
+                if (bad_mc || bad_mn)
+                    R->violation("outline", cls_name(bad_mc ? "uncovered" : "covered-outside", v), tags(v, el, "-", "outline"), mjson(v),
+                                 fmt("%d must-cover sample(s) uncovered, %d must-not sample(s) covered by the polygon of element %d; first: %s", bad_mc, bad_mn, el, describe_sample(eo[el].o, f, v, c07::J_NATURAL, G).c_str()), replay);
+            }
+            for (uint64_t k = 0; k < res.count; k++) { res[k]->clear(); free_allocation(res[k]); }
+            res.clear();
+            free_path(fp);
+            if (ok) { live.push_back(v); R->count("cases"); R->count("nontrivial"); R->count("path_ext_members_checked"); }
+        }
+        if (live.empty()) continue;
+        // ---- records
+        for (int fmt_i = 0; fmt_i < 2; fmt_i++) {
+            const bool oas = fmt_i == 1;
+            const char* fname = oas ? "oas" : "gds";
+            const std::string sub = oas ? "path.oas" : "path.gds";
+            std::vector<FlexPath*> paths;
+            for (int v : live) paths.push_back(build_path(v));
+            std::string file = R->scratch + fmt("/e%d.%s", (int)getpid(), fname);
+            if (!write_library(paths, file, oas)) { R->violation(sub, "ext:write-error", tags(live[0], 0, fname, "write"), mjson(live[0]), "writer returned an error", replay); continue; }
+            std::vector<PathRecord> recs;
+            std::string err;
+            bool ok = decode_paths(file, oas, recs, err);
+            unlink(file.c_str());
+            if (!ok || recs.size() != live.size() * nel) { R->violation(sub, "ext:record-count", tags(live[0], 0, fname, "count"), mjson(live[0]), fmt("expected %zu PATH records, re-read %zu (%s)", live.size() * nel, recs.size(), err.c_str()), replay); continue; }
+            for (int el = 0; el < nel; el++) {
+                // one record oracle for the batch: same centre line, one end variant per record
+                c07::ElementInput rin;
+                rin.raw = true;
+                rin.spine = recs[el].pts;
+                rin.hw.assign(rin.spine.size(), recs[el].hw);
+                rin.off.assign(rin.spine.size(), 0.0);
+                rin.ends.assign(8, c07::EndVar{false, false, 0, 0});
+                bool cl_ok = true;
+                for (size_t k = 0; k < live.size(); k++) {
+                    const PathRecord& r = recs[k * nel + el];
+                    int v = live[k];
+                    R->count("cases");
+                    R->count("path_ext_records_checked");
+                    // centre line and width
+                    bool same = r.pts.size() == (size_t)n && fabs(r.hw - hw) <= GRID;
+                    for (int i = 0; same && i < n; i++) same = c07::norm(r.pts[i] - eo[el].o.C[i]) <= 1.5 * GRID;
+                    if (!same) { R->violation(sub, cls_name("centerline-or-width", v), tags(v, el, fname, "centerline-or-width"), mjson(v), fmt("record centre line %s, hw %.4f", pts_str(r.pts).c_str(), r.hw), replay); cl_ok = false; continue; }
+                    // effective extensions carried by the record (flush = (0,0), half-width = (hw,hw))
+                    double wu = extv(pairs[v].first, hw), wv = extv(pairs[v].second, hw);
+                    if (r.round || fabs(r.ext_s - wu) > GRID || fabs(r.ext_e - wv) > GRID)
+                        R->violation(sub, cls_name("end-values", v), tags(v, el, fname, "end-values"), mjson(v),
+                                     fmt("written extended(%.4g, %.4g); the re-read record has end code %s with effective extensions (%.4g, %.4g)", wu, wv, r.end_name.c_str(), r.round ? 0.0 : r.ext_s, r.round ? 0.0 : r.ext_e), replay);
+                    rin.ends[v] = c07::EndVar{r.round, r.round, r.round ? 0 : r.ext_s, r.round ? 0 : r.ext_e};
+                }
+                if (!cl_ok) continue;
+                c07::Oracle ro = c07::build(rin);
+                std::vector<c07::Cls> rcls(grid.size());
+                for (int jj = 0; jj < grid.ny; jj++) for (int ii = 0; ii < grid.nx; ii++) rcls[(size_t)jj * grid.nx + ii] = c07::classify(ro, grid.at(ii, jj), G_REC, 8);
+                for (int v : live) {
+                    if (!(ro.valid_ends >> v & 1) || keep[v][el].size() != grid.size()) continue;
+                    int bad_in = 0, bad_out = 0;
+                    V f{0, 0};
+                    for (size_t s2 = 0; s2 < grid.size(); s2++) {
+                        const c07::Cls& c = rcls[s2];
+                        bool mc = c.mc >> v & 1, mn = (c.farE >> v & 1) && (c.farJ >> c07::J_MITER & 1);
+                        if (mc && !keep[v][el][s2]) { if (!bad_in && !bad_out) f = grid.at((int)(s2 % grid.nx), (int)(s2 / grid.nx)); bad_in++; }
+                        if (mn && keep[v][el][s2]) { if (!bad_in && !bad_out) f = grid.at((int)(s2 % grid.nx), (int)(s2 / grid.nx)); bad_out++; }
+                    }
+                    R->count("path_ext_region_comparisons");
+                    if (bad_in || bad_out)
+                        R->violation(sub, cls_name(bad_in ? "record-larger" : "record-smaller", v), tags(v, el, fname, "region"), mjson(v),
+                                     fmt("%d sample(s) inside the re-read record's region not covered by the source to_polygons, %d covered outside it; first (%.4f,%.4f)", bad_in, bad_out, f.x, f.y), replay);
+                }
+            }
+        }
+    }
+}
+static void run_ext_family(const std::string& name, const std::string& desc, const std::vector<std::vector<V>>& spines) {
+    if (getenv("C07_FAM") && name.find(getenv("C07_FAM")) == std::string::npos) return;  // development aid
+    auto body = [&](int64_t i) { for (int w : {0, 1}) for (int oc : {0, 3}) run_ext_group(spines[i], w, oc, false); };
+    auto describe = [&](int64_t i) { return jobj({{"spine", jpts(spines[i])}, {"then", jstr("16 extended(start,end) pairs x widths {1,2} x {one, two elements} x {gds, oas}")}}); };
+    auto replay_of = [&](int64_t i) { return fmt("sub=pathext pts=%s", pts_str(spines[i]).c_str()); };
+    bool ok = parallel_for(*R, (int64_t)spines.size(), body, describe, replay_of, PFOptions{60, "path.oas", true});
+    R->bound("path.ext." + name, desc + "; simple paths x widths {1, 2} x {one element, two elements +1.5/-1.5} x extended(start, end) with start, end in {0, hw, 0.35, -0.5} (16 pairs) x {gds, oas}: source outline, record centre line/width, effective extensions, region", ok, (int64_t)spines.size() * 64);
+}
+
 // ----------------------------------------------------------------------- long simple paths (multi-record XY lists)
 // GDSII XY records hold at most 8190 points, so FlexPath::to_gds splits the centre line of a long simple path
 // over several records.  Members: zig-zag spine (0,0),(4,4),(8,0),(12,4),... with n points built by init +
@@ -1258,6 +1413,12 @@ int main(int argc, char** argv) {
             BookSys s(nelem, book_alphabet_of(tag), sub);
             s.printable = true;
             replay_bfs(s);
+        } else if (sub == "pathext") {
+            std::vector<V> sp = parse_pts(run.rarg("pts"));
+            for (int w : {0, 1}) for (int oc : {0, 3}) {
+                if (!run.rarg("w").empty() && (atoi(run.rarg("w").c_str()) != w || atoi(run.rarg("oc").c_str()) != oc)) continue;
+                run_ext_group(sp, w, oc, true);
+            }
         } else if (sub == "pathlong") {
             run_long_member(atoi(run.rarg("n").c_str()), atoi(run.rarg("oc").c_str()), atoi(run.rarg("end").c_str()), true);
         } else {
@@ -1299,6 +1460,12 @@ int main(int argc, char** argv) {
     opt.do_c = !getenv("C07_NOC");
     run_family("2pt", "every 2-point polyline of the 5x5 lattice scaled by 4, up to translation", s2, opt, 60);
     if (opt.do_c && !getenv("C07_FAM")) run_long(T);
+    if (opt.do_c) {
+        std::vector<std::vector<V>> e3;
+        enum_spines(3, vec_set(T ? 1 : 3), e3);
+        run_ext_family("2pt", "every 2-point polyline of the 5x5 lattice scaled by 4, up to translation", s2);
+        run_ext_family(T ? "3pt.dir16" : "3pt.dir8", std::string("3-point polylines with steps from the ") + (T ? "16" : "8") + " shortest lattice vectors" + tail, e3);
+    }
     if (!T) {
         enum_spines(3, vec_set(1), s3a);
         run_family("3pt.dir16", "3-point polylines whose two steps are taken from the 16 shortest lattice vectors (8 directions and the arctan(1/2) family)" + tail, s3a, opt, 60);
